@@ -611,10 +611,10 @@ async fn run_markers(
         for r in &g.log {
             let ok = r["rep"]["t"] == "ok";
             match s(r, "op").as_str() {
-                "sub" if ok && r.get("agg").is_none() => {
+                "sub" if ok => {
                     live.insert(u(r, "tid"), r["key"].as_array().map(|a| a.iter().map(|x| x.as_str().unwrap_or("").to_owned()).collect()).unwrap_or_default());
                 }
-                "psub" if ok && r.get("agg").is_none() => {
+                "psub" if ok => {
                     live.insert(u(r, "tid"), r["pat"].as_array().map(|a| a.iter().map(|x| x.as_str().unwrap_or("").to_owned()).collect()).unwrap_or_default());
                 }
                 "unsub" if ok => {
